@@ -378,3 +378,41 @@ PROPS['C09'] = dict(
     quick=dict(engines=[rapid('^TestC09Requests', 3200), rapid('^TestC09Connect', 8000)]),
     thorough=dict(engines=[rapid('^TestC09Requests', 80000, shards=14, timeout=1500), rapid('^TestC09Connect', 200000, shards=14, timeout=1500)]),
 )
+
+# Generator and oracle extensions made while the checks were strengthened against the seeded changes (DESIGN.md §13).
+RULE_ADDENDA = {
+    'C01': "Also: slowSave (a Save parked inside the Persistence while the read routine and a publisher of the other level store); "
+           "1 in 4 histories start from an adopted session whose pending identifiers stand 1-3 before the 14-bit wrap; every "
+           "history draws pipe-like or socket-like connections.",
+    'C02': "Also: the first process asks for a clean session in 1 of 3 histories (the adopting processes never do); the broker "
+           "model forgets its session on a CONNECT which carries the flag.",
+    'C03': "Also: the first process asks for a clean session in 1 of 3 histories (the adopting processes never do); the broker "
+           "model forgets its session on a CONNECT which carries the flag.",
+    'C04': "Also: restart optionally after an orderly end (Close from another goroutine while the application holds the last "
+           "return, then one more ReadSlices). Ownership is taken as the property states it: the application invoked ReadSlices "
+           "again after the return (a failing marker Save in that invocation excepted, as documented).",
+    'C05': "Also: 1 in 4 histories start from a session positioned at the identifier wrap; optional restart at the end "
+           "(adoption, continuation, resend order and DUP of the next process).",
+    'C07': "Also: storeFault(S|L|D) on the inbound path.",
+    'C08': "Also: resendFault (connection lost; a write fault 0-90 bytes into the retransmission on the next connection, of kind "
+           "timeout, timeout-with-progress or reset).",
+    'C09': "Also: the over-the-limit payload class is drawn in 1 of 8 quick-tier cases.",
+    'C10': "Also: reader states skipping-dup-big (discarding the payload of a retransmitted exactly-once message larger than the "
+           "read buffer, tail outstanding) and holding-big-tail-outstanding; failure 'silence' (nothing but PauseTimeout). Extra "
+           "invariant: once ReadSlices reported an error while reading from a connection, no later ReadSlices reads from it.",
+    'C11': "Also: connectFails (connection lost; the next attempt parks in the Dialer or in the handshake; 1-3 requests are "
+           "issued meanwhile; the attempt fails; they must return without any further ReadSlices).",
+    'C12': "Also: in state dialing the Dialer may ignore the end of its context and hand out a connection after Close (it must "
+           "be closed; Close itself need not beat such a Dialer).",
+    'C13': "Also: after a violation and the redial a PUBLISH is sent on the fresh connection and must come out as sent (clean "
+           "slate: no skip count, big-message marker or partial packet carried over).",
+    'C15': "Also (stored-values half): the Persistence double reads the buffers when a slow Save gets to them, not on entry; "
+           "slowSave overlaps Saves of the read routine and of both publish levels.",
+    'C16': "Also: AtLeastOnceMax/ExactlyOnceMax from {16,16,2,3,4}; 1 in 8 adoptions with Persistence.Delete failing once "
+           "(only 'no panic' is judged then); 'second life' (the adopted client fills its queues, the process stops, the next "
+           "AdoptSession without new damage must work, connect and complete).",
+    'C17': "Also: resendFails (connection lost; the next one resets 0-80 bytes into the retransmission; the one after is healthy).",
+    'C18': "Also: in a held handshake a persisted publish whose Save is still running when the CONNACK arrives.",
+}
+for _k, _v in RULE_ADDENDA.items():
+    PROPS[_k]['rule'] = PROPS[_k]['rule'].rstrip() + ' ' + _v
